@@ -14,6 +14,8 @@ What the rewriting does -- and nothing else:
   * `&x`, `&x[0]`                                ->  `__addr__(x)`
   * typed parameters of def-functions lose their C type
   * `cimport` lines are dropped; `inline`, `noexcept` are dropped
+  * an uninitialised scalar declaration `cdef T x` inside a function becomes `x = __uninit__("T")`
+    (symbolically: any value)
   * a `for ch in <str>` loop whose variable is declared Py_UCS4 iterates over code points
 The generated text is executed once in a namespace that provides Python stand-ins for the C
 library names (memset, memcpy, sizeof, ord on code points, the CPython C-API functions), so
@@ -125,6 +127,9 @@ def rewrite(src):
                 out.append(ind + f'{name} = None  # field {t.strip()}')
             elif t.strip() == 'Writer':
                 out.append(ind + f'{name} = Writer()')
+            elif t.strip() in ('Py_ssize_t', 'int', 'bint', 'Py_UCS4', 'uint8_t', 'uint64_t', 'char') and '*' not in t:
+                # an uninitialised C scalar: any value
+                out.append(ind + f'{name} = __uninit__("{t.strip()}")')
             else:
                 out.append(ind + f'pass  # decl {t.strip()} {name}')
             continue
@@ -210,6 +215,9 @@ def _namespace():
     def __addr__(x):
         return x
 
+    def __uninit__(t):
+        return 0
+
     def __codepoints__(s):
         return [builtins.ord(c) for c in s]
 
@@ -230,16 +238,20 @@ def _namespace():
     def chr_(x):
         return x if isinstance(x, str) else builtins.chr(x)
 
-    ns = {"__cast__": __cast__, "__addr__": __addr__, "__codepoints__": __codepoints__, "memset": memset,
+    ns = {"__cast__": __cast__, "__addr__": __addr__, "__uninit__": __uninit__, "__codepoints__": __codepoints__, "memset": memset,
           "memcpy": memcpy, "sizeof": sizeof, "ord": ord_, "chr": chr_, "NULL": None}
     for nm in ("PyErr_NoMemory", "PyMem_Free", "PyMem_Malloc", "PyMem_Realloc", "PyUnicode_DATA",
-               "PyUnicode_DecodeASCII", "PyUnicode_DecodeUTF8Stateful", "PyUnicode_GET_LENGTH", "PyUnicode_KIND",
+               "PyUnicode_DecodeASCII", "PyUnicode_GET_LENGTH", "PyUnicode_KIND",
                "PyUnicode_READ"):
         def stub(*a, _nm=nm):
             raise RuntimeError(f"C API stand-in {_nm} is only interpreted symbolically")
         stub.__name__ = nm
         stub.__qualname__ = nm
         ns[nm] = stub
+
+    def PyUnicode_DecodeUTF8Stateful(buf, n, errors, consumed):
+        raise RuntimeError("C API stand-in PyUnicode_DecodeUTF8Stateful is only interpreted symbolically")
+    ns["PyUnicode_DecodeUTF8Stateful"] = PyUnicode_DecodeUTF8Stateful
     return ns
 
 
